@@ -157,3 +157,54 @@ func ruleParserStateRestore(c *Ctx) {
 	}
 	c.census("P-RESTORE", "stores into parser state other than token, lexer and error list", nStores, 1)
 }
+
+// ruleLexerInput (L-INPUT): the lexer scans the text it was given.  Every position the server reports - token
+// starts, syntax-tree ranges, semantic tokens - is an offset, line and column in the lexer's input; the client reads
+// them as positions in ITS text.  So the string stored into the lexer's text field is the caller's string itself:
+// not a slice of it, not a trimmed or re-encoded copy (a byte order mark cut off in front shifts every token of the
+// first line one column to the left; a normalised line end shifts everything behind it).
+func ruleLexerInput(c *Ctx) {
+	if c.ranOnce("ruleLexerInput") {
+		return
+	}
+	ppk := c.P.SSAPkg("internal/parser")
+	n := 0
+	for _, f := range c.P.ModuleFuncs() {
+		if f.Pkg != ppk {
+			continue
+		}
+		for _, b := range f.Blocks {
+			for _, ins := range b.Instrs {
+				st, ok := ins.(*ssa.Store)
+				if !ok {
+					continue
+				}
+				fa, ok := st.Addr.(*ssa.FieldAddr)
+				if !ok {
+					continue
+				}
+				pt, ok := fa.X.Type().Underlying().(*types.Pointer)
+				if !ok || !typeHasSuffix(pt.Elem(), "parser.Lexer") || types.TypeString(fieldVarOfAddr(fa).Type(), nil) != "string" {
+					continue
+				}
+				n++
+				okVal := false
+				switch v := st.Val.(type) {
+				case *ssa.Parameter:
+					okVal = true
+				case *ssa.UnOp:
+					// a copy of another lexer's text
+					if a, ok := v.X.(*ssa.FieldAddr); ok && v.Op == token.MUL {
+						if p2, ok := a.X.Type().Underlying().(*types.Pointer); ok && typeHasSuffix(p2.Elem(), "parser.Lexer") {
+							okVal = true
+						}
+					}
+				}
+				c.check(okVal, "L-INPUT", funcName(f), "the lexer's text is the caller's string itself", st.Pos(),
+					"the text field receives the constructor's parameter unchanged",
+					"the text the lexer scans is not the string it was given but something computed from it (a slice, a trimmed or rewritten copy): offsets, lines and columns are then positions in the lexer's copy, while the client reads them as positions in its own text (a byte order mark cut off shifts every token of the first line)")
+			}
+		}
+	}
+	c.census("L-INPUT", "stores into the lexer's text field", n, 1)
+}
